@@ -52,7 +52,7 @@ def run(prog, rep, tier):
     r5_4(prog, rep)
     r5_5(prog, rep)
     n = shared.ownership_rule(prog, rep, "R5.6", which=("GroupSpecificTerm",))
-    if n < 5:
+    if n is not None and n < 5:
         raise AnalysisError(f"R5.6: only {n} GroupSpecificTerm(...) constructor sites found (floor 5)")
     shared.dtype_narrowing(prog, rep, "R5.7")
     rep.floor("R5.1", 7)
@@ -311,3 +311,8 @@ def r5_5(prog, rep):
     obl(rep, t, t.node, "R5.5", n_int == 2, "Term.__or__ adds the implicit group intercept for a single factor and for every term of a sum of factors", f"{n_int} site(s)")
     ni = prog.fn("terms.terms.NegatedIntercept.__or__")
     obl(rep, ni, ni.node, "R5.5", isinstance(ni.body[-1], ast.Raise), "(0 | g) is refused", nontrivial=False)
+
+
+from ..core import guard_rules  # noqa: E402
+
+guard_rules(globals())
